@@ -54,7 +54,7 @@ def configs(tier):
     for hist in hs:
         out.append(dict(kind="mg_hetero", shape="4x4", hist=hist, depth=0))
     # one solver object used on arrays of DIFFERENT sizes: the earlier (smaller) array must not shape the later solve
-    for first, main, depth in (([4], [8], 1), ([8], [4], 1)) + (() if tier == "quick" else (([4], [16], 2), ([4, 4], [8, 8], 1), ([16], [8], 2))):
+    for first, main, depth in (([4], [8], 1), ([8], [4], 1)) + (() if tier == "quick" else (([8], [16], 2), ([4, 4], [8, 8], 1), ([16], [8], 2))):
         out.append(dict(kind="mg_sizes", first=first, main=main, depth=depth))
         out.append(dict(kind="jacobi_sizes", first=first, main=main))
     # the discretisation of a new Wasserstein solver object does not depend on objects built earlier in the process
